@@ -1,6 +1,7 @@
 (* Extraction of the parser / printer models (run from the output directory; not part of `make`). *)
-From SE Require Import Expr.IO Parse.ParseModel.
+From SE Require Import Expr.IO Parse.ParseModel Parse.PrintModel.
 Require Import ExtrOcamlBasic.
-Extraction "semodel.ml" SE.Expr.IO.N_of_digits SE.Expr.IO.Z_of_digits SE.Expr.IO.digits_of_N tc_lookup expr_eqb expr_cmp
+Extraction "semodel.ml" SE.Expr.IO.N_of_digits SE.Expr.IO.Z_of_digits SE.Expr.IO.digits_of_N tc_lookup
+  expr_eqb expr_cmp
   lex convert_xor parse_tokens parse_syntax denote parser_parse run_history fresh_parser parse_ref
-  parse_numeric ff_prefix.
+  parse_numeric ff_prefix print printable print_double.
